@@ -42,6 +42,7 @@ type shape struct {
 	preCancel bool // ctx cancelled before Shutdown is called
 	syncToo   bool // an extra synchronous handler on a
 	pubCancel int  // publishes use a context: 1 = cancelled before the publish, 2 = cancelled by a task at an explored point
+	twice     bool // after the first Shutdown returned (whatever it returned) and the bus went idle, publish again and call Shutdown with a live context
 }
 
 type inst struct {
@@ -127,6 +128,20 @@ func (in *inst) Body() {
 				}
 			}
 			in.rec.Add("wret", w, r, "")
+			if s.twice {
+				bus.Wait()
+				in.rec.Add("idle", 0, 0, "")
+				in.rec.Add("call", 20, 0, "")
+				A.Pub(bus, 20)
+				in.rec.Add("ret", 20, 0, "")
+				in.rec.Add("wcall2", 0, 0, "")
+				err2 := bus.Shutdown(context.Background())
+				r2 := 0
+				if err2 != nil {
+					r2 = 1
+				}
+				in.rec.Add("wret2", 0, r2, "")
+			}
 		} else {
 			bus.Wait()
 			in.rec.Add("wret", w, 0, "")
@@ -280,7 +295,13 @@ func (in *inst) Check(res *vrt.Result) []vrt.Violation {
 		}
 		if isShutdown && result != 0 {
 			// returned the context's error: must not have closed the store
-			if nclose != 0 {
+			closesBefore := 0
+			for i, e := range evs {
+				if e.K == "close" && (!in.s.twice || i < wr) {
+					closesBefore++
+				}
+			}
+			if closesBefore != 0 {
 				bad("close-on-timeout", "Shutdown returned the context error but closed the store", "")
 			}
 			if !in.s.canceller && !in.s.preCancel {
@@ -311,8 +332,15 @@ func (in *inst) Check(res *vrt.Result) []vrt.Violation {
 			}
 		}
 		if isShutdown {
-			if nclose != 1 {
-				bad("close-count", fmt.Sprintf("Shutdown returned nil and the store was closed %d times", nclose), "")
+			firstCloses := 0
+			for i, e := range evs {
+				if e.K == "close" && i < wr {
+					firstCloses++
+					closePos = i
+				}
+			}
+			if firstCloses != 1 {
+				bad("close-count", fmt.Sprintf("Shutdown returned nil and the store was closed %d times before it returned", firstCloses), "")
 			} else if closePos > wr {
 				bad("close-late", "store closed after Shutdown returned", "")
 			} else {
@@ -329,6 +357,35 @@ func (in *inst) Check(res *vrt.Result) []vrt.Violation {
 		bad("close-count", "store closed without Shutdown", "")
 	}
 	_ = lastExit
+	if in.s.twice {
+		wr2 := pos("wret2", 0, -1)
+		if wr2 < 0 {
+			bad("incomplete", "second Shutdown did not return", "")
+		} else {
+			if evs[wr2].B != 0 {
+				bad("shutdown-result", "second Shutdown (live context) returned an error", "")
+			}
+			acc := map[[2]int]bool{}
+			required(20, acc)
+			for k := range acc {
+				if x := pos("exit", k[0], k[1]); x < 0 || x > wr2 {
+					bad("early-return", "a second Shutdown(nil) returned before an async handler of a publish made after the first Shutdown had finished", fmt.Sprintf("handler %d event %d", k[0], k[1]))
+				}
+			}
+			// the close belonging to the second shutdown comes after those handlers
+			lastClose := -1
+			for i, e := range evs {
+				if e.K == "close" && i < wr2 {
+					lastClose = i
+				}
+			}
+			for k := range acc {
+				if x := pos("exit", k[0], k[1]); lastClose >= 0 && x > lastClose && lastClose > pos("wcall2", 0, -1) {
+					bad("close-early", "second Shutdown closed the store while an async handler was still running", "")
+				}
+			}
+		}
+	}
 	return vs
 }
 
@@ -344,6 +401,9 @@ func shapes(thorough bool) []shape {
 		{name: "wait/publish-ctx-precancelled", pubs: 2, twoH: true, pubCancel: 1},
 		{name: "wait/publish-ctx-cancel-race", pubs: 2, nested: true, pubCancel: 2},
 		{name: "shutdown/publish-ctx-cancel-race", pubs: 1, shutdown: true, pubCancel: 2},
+		{name: "shutdown/twice-first-succeeds", pubs: 1, shutdown: true, twice: true},
+		{name: "shutdown/twice-first-times-out", pubs: 1, shutdown: true, preCancel: true, twice: true},
+		{name: "shutdown/twice-cancel-race", pubs: 1, shutdown: true, canceller: true, twice: true},
 		{name: "shutdown/1pub", pubs: 1, shutdown: true},
 		{name: "shutdown/nested", pubs: 1, nested: true, shutdown: true},
 		{name: "shutdown/cancel-race", pubs: 1, shutdown: true, canceller: true},
